@@ -46,11 +46,24 @@ def concretize(ops):
     return out
 
 
-def real_run(LRUCache, cap, ops):
+class _K(int):
+    """an int subclass key: equal and hash-equal to the plain int"""
+
+
+def _rep(k, i):
+    """one of several ==-equal, hash-equal spellings of key k (the cache must treat them as one key)"""
+    k = int(k)
+    return (k, float(k), _K(k), True if k == 1 else k)[i % 4]
+
+
+def real_run(LRUCache, cap, ops, variant=0):
+    import copy as _copy
     c = LRUCache(cap)
     res = []
-    for o in ops:
+    for i, o in enumerate(ops):
         p = o.split(":")
+        if variant and len(p) > 1 and p[0] in "gSDGTC":
+            p = [p[0], _rep(p[1], i + variant)] + p[2:]
         try:
             t = p[0]
             if t == "g":
@@ -70,17 +83,17 @@ def real_run(LRUCache, cap, ops):
             elif t == "X":
                 x = c.clear(); r = "N" if x is None else "?"
             elif t == "K":
-                r = "k" + ",".join(str(k) for k in c.keys())
+                r = "k" + ",".join(str(int(k)) for k in c.keys())
             elif t == "V":
                 r = "w" + ",".join(str(k) for k in c.values())
             elif t == "I":
-                r = "i" + ",".join(f"{k}={v}" for k, v in c.items())
+                r = "i" + ",".join(f"{int(k)}={v}" for k, v in c.items())
             elif t == "R":
-                r = "k" + ",".join(str(k) for k in reversed(c))
+                r = "k" + ",".join(str(int(k)) for k in reversed(c))
             elif t == "Y":
-                c = c.copy(); r = "N"
+                c = c.copy() if (i + variant) % 2 == 0 else _copy.copy(c); r = "N"
             elif t == "P":
-                c = pickle.loads(pickle.dumps(c, pickle.HIGHEST_PROTOCOL)); r = "N"
+                c = pickle.loads(pickle.dumps(c, (i + variant) % (pickle.HIGHEST_PROTOCOL + 1))); r = "N"
             else:
                 raise AssertionError(o)
         except KeyError:
@@ -149,6 +162,13 @@ def run(ctx):
     for (cap, ops), ln in zip(cases, out):
         m, s = ln[2:].split(" | S ")
         impl = real_run(LRUCache, cap, ops)
+        if len(ops) >= 3 and (len(ops) + cap) % 5 == 0:
+            # the same history with ==-equal keys of other types (float, bool, int subclass), copy.copy
+            # instead of .copy(), other pickle protocols: results must not change
+            alt = real_run(LRUCache, cap, ops, variant=1 + len(ops) % 3)
+            if alt != impl:
+                ctx.reject({"cap": cap, "ops": ops, "impl": impl, "with_equal_keys_of_other_types": alt},
+                           "LRUCache results depend on the type of ==-equal keys / the copy or pickle route", None)
         nontriv = has_eviction(s, cap, ops)
         ctx.case(sample={"cap": cap, "ops": ops, "results": impl} if nontriv and len(ops) > 4 else None,
                  key=(cap, tuple(ops)) if nontriv else None)
